@@ -63,6 +63,18 @@ check('C09', level='exploration', steps=[dict(src='drv/tld.c', variant='plain', 
             "distinct_nontrivial counts the kind-0 single-label family (pairwise distinct by construction)"),
       deadline=dict(quick=300, thorough=1200))
 
+check('C08', level='exploration', steps=[dict(src='drv/c08.c', variant='plain', name='policy')],
+      rule=("complete product: 2048 masks x 4 modes x tld_check on/off x {two real addresses per class present in punycode.csv, 3 reserved names, unlisted TLD, single label, "
+            "IPv4/IPv6 literal, 4 syntactically invalid addresses} + with tld on a caller-installed callback returning each class 1..9, 0 and each negative code; "
+            "every tuple is distinct by construction and non-trivial (it exercises one arm of the policy switch with one mask)"),
+      deadline=dict(quick=300, thorough=600))
+
+check('C10', level='exploration', steps=[dict(src='drv/c10.c', variant='plain', name='idn')],
+      rule=("domains are generated once each: all labels of 1-2 (thorough 1-3) symbols over 35 symbols (letters/digits of Cyrillic, Greek, Han, Hangul, Arabic, Hebrew, Devanagari, "
+            "Latin-1 + a,1,-) in 1-3 label domains x 4 suffixes, every IDN TLD row in U- and A-form, all ASCII strings over {a,Z,1,-,.,xn--,com}, negative families; "
+            "non-trivial = multi-label generated domains (counted by the driver, pairwise distinct by construction)"),
+      deadline=dict(quick=300, thorough=2400))
+
 # ---------------------------------------------------------------------------
 def load_findings():
     p = os.path.join(V, 'known_findings.json')
